@@ -455,6 +455,14 @@ def step (s : State) (toks : List String) : State × String :=
       let rid := rosterId realHash r
       ({ s with roster := r.toArray, rid := rid }, showUuid rid)
     | _, _ => (s, "bad-op")
+  -- `zconcat <member> …`: Roster.Concat over identities whose deprecated ID field is unset: the same roster as `concat`
+  -- (members are their keys); the current roster stays
+  | "zconcat" :: ms =>
+    match ms.mapM (parseMember s.keys), oneKind s.keys ms s.rkind with
+    | some l, some _ =>
+      if l.isEmpty ∨ s.roster.isEmpty then (s, "bad-op") else
+      (s, showUuid (rosterId realHash (concatMembers s.roster.toList l)))
+    | _, _ => (s, "bad-op")
   -- `withroot <position>`: Roster.NewRosterWithRoot(List[position]); becomes the current roster
   | ["withroot", p] =>
     match p.toNat?.bind (withRoot s.roster.toList) with
